@@ -1576,6 +1576,12 @@ impl WriteTaskState {
 
         let LaneData { target, response } = response;
         if let Some(remote_id) = target {
+            if !write_tracker.has_remote(remote_id) {
+                // The remote was removed while its sync request was in flight: there is nobody to
+                // link to (an implicit link would never be removed again).
+                trace!(response = ?response, "Discarding response for detached remote {}.", remote_id);
+                return Either::Left(Writes::Zero);
+            }
             trace!(response = ?response, "Routing response to {}.", remote_id);
             links.count_single(id);
             let write = if !links.is_linked(remote_id, id) {
